@@ -128,6 +128,15 @@ def check_qr(case):
     k = min(m, n)
     lr, lcond = leading_rank(A)
     tags = []
+    # rank deficiency that comes ONLY from exactly-zero columns is not part of the known finding (the real QR meets an
+    # exactly zero column, not a rounding-level one): judged like a full-rank input if the non-zero leading columns
+    # are independent and well conditioned
+    zc = [j for j in range(min(m, n)) if not A[:, j].any()]
+    if lr < k and zc and len(zc) < k:
+        keep = [j for j in range(k) if j not in zc]
+        sk = ref.svals(A[:, keep])
+        if len(sk) == len(keep) and sk[-1] > 0 and sk[0] / sk[-1] < ILL_COND and lr == len(keep):
+            lr, lcond = k, float(sk[0] / sk[-1])
     if lr < k:
         tags.append("leading_rank_deficient")
     elif lcond >= ILL_COND:
